@@ -146,7 +146,7 @@ def run(ctx):
             opts = {}
             r = rng.random()
             if r < 0.25:
-                opts["config"] = {"frate": rng.choice([50, 200])}
+                opts["config"] = {"frate": rng.choice([50, 200, 60, 90, 150, 125])}     # (60, 90, 150: the frame shift is not a whole number of samples)
             cases.append(decmatrix.make_case(rng, ctx, i, {"result", "partial", "json", "alignment"}, opts))
         for j, name in enumerate(sorted(HOSTILE)):
             cases.append(hostile_case(rng, n + j, name))
